@@ -495,8 +495,14 @@ func (v *vc) applyModifies(se *specEnv, st *state, pre *state, m string) {
 				continue
 			}
 			for _, l := range se.locations(e, pre) {
+				sort, known := v.heapSort[l.heap]
+				if !known {
+					continue
+				}
 				if l.ref != "" {
-					v.errs = append(v.errs, "*except entries must be whole-type heaps (Type.all)")
+					// a single object field or a slice's backing row keeps its value
+					cur := v.getHeap(st, l.heap)
+					v.setHeap(st, l.heap, sort, sto(cur, l.ref, sel(v.getHeap(old, l.heap), l.ref)))
 					continue
 				}
 				st.heaps[l.heap] = v.getHeap(old, l.heap)
